@@ -9,7 +9,7 @@ from openapi_python_client.parser.properties import (
     Schemas,
     property_from_data,
 )
-from openapi_python_client.parser.properties.schemas import get_reference_simple_name, parse_reference_path
+from openapi_python_client.parser.properties.schemas import parse_reference_path
 
 from .. import schema as oai
 from ..config import Config
@@ -144,7 +144,7 @@ def _resolve_reference(
             return ParseError(detail=ref_path.detail, data=body)
         if not ref_path.startswith("/components/requestBodies/"):
             return ParseError(detail=f"$ref to {body.ref} not allowed in request bodies", data=body)
-        body = request_bodies.get(get_reference_simple_name(ref_path))
+        body = request_bodies.get(ref_path.removeprefix("/components/requestBodies/"))
     if isinstance(body, oai.Reference):
         return ParseError(detail="Circular $ref in request body", data=body)
     if body is None and references_seen:
